@@ -11,8 +11,10 @@ Sample values are abstract (`α`); the numeric kernels (`lfilter`, the block RMS
 the list of its time columns together with the annotations of `PipelineData`
 (`s0`, `fs`, `channel`, `metadata`); for plain `ndarray` input the annotation fields
 are simply not observed.  `concat` checks that the second array starts where the
-first ends (its `fs`/`channel`/`metadata` equality checks are not modelled: a stream
-carries one annotation record).  Core Lean only.
+first ends (a stream carries one annotation record, so its `fs`/`channel`/`metadata` equality
+checks always pass; `PsiProofs.C12.stage_cat_is_full_concat` proves that on such pieces `cat` is the
+full `concat` of the C11 model).  `blocked` / `discard` also have their `Ellipsis` (restart)
+branch: `withRestart`, `blockedStepE`, `discardStepE`.  Core Lean only.
 
 `downsample`, `decimate`, `iirfilter`, `rms` are modelled **as repaired** by
 notes/C12_fix_1..5.diff (see notes/C12.md).
